@@ -133,3 +133,351 @@ Fixpoint rq_classify (s : rstore) (q : rq) (a : ast) (v5 : bool) (limit : N) (op
 
 Definition rq_class (max : nat) (ifexp : N) (ops : list rqop) : rqclass :=
   rq_classify [] (rq_new max ifexp [99]) (a_new max ifexp) false 0 ops.
+
+(* ====================================================================================
+   PART 2: the broker level.  What the harness observed: the client steps with the journal
+   positions at which each request was sent (`os_start`), at which the broker was quiet
+   again (`os_done`) and at which the broker wrote each packet; and, for a prefix k of the
+   journal, what a fresh broker started on that prefix shows.  `crash_prefix_fails` is
+   written from the statement of C09 and returns the clauses that do not hold. *)
+Inductive rxpkt :=
+| XConnack (sp : bool) (code : N)
+| XSuback (pid : N) (codes : list N)
+| XUnsuback (pid : N)
+| XPuback (pid code : N)
+| XPubrec (pid code : N)
+| XPubrel (pid : N)
+| XPubcomp (pid : N)
+| XPublish (dup : bool) (qos : N) (topic payload : str) (pid : N)
+| XOther.
+
+Inductive cstep :=
+| SConnect (c : nat) (clean : bool) (expiry : N)
+| SClose (c : nat)
+| SSubscribe (c : nat) (pid : N) (subs : list sub)
+| SUnsubscribe (c : nat) (pid : N) (topics : list str)
+| SPublish (c : nat) (qos pid : N) (topic payload : str)
+| SPubrel (c : nat) (pid : N)
+| SPuback (c : nat) (pid : N)
+| SPubrec (c : nat) (pid : N)
+| SPubcomp (c : nat) (pid : N)
+| SSkipped.
+
+Record ostep := { os_start : nat; os_done : nat; os_step : cstep; os_rx : list (nat * nat * rxpkt) }.
+
+Record cobs := { co_sp : option bool; co_rx : list rxpkt; co_resend : list (N * nat * bool) }.
+Record pobs := { po_k : nat; po_up : bool; po_sessions : list cid; po_subs : list (cid * sub); po_clients : list cobs }.
+
+Inductive cfail :=
+| FStartup                                 (* start-up failed on the prefix state *)
+| FSession (c : nat)                       (* an acknowledged persistent session is missing / not resumed *)
+| FSubExtra (c : nat) (t : str) (unsubscribed : bool)   (* a subscription that must be absent is there *)
+| FSubMissing (c : nat) (t : str)          (* an acknowledged subscription is missing or has other options *)
+| FSubForeign (id : cid)                   (* subscriptions registered under a client id nobody used *)
+| FMsgLost (c : nat) (payload : str)       (* publisher acknowledged, subscriber not: not redelivered *)
+| FDupNotRecognised (c : nat) (pid : N).   (* QoS 2 id awaiting PUBREL: PUBLISH accepted again *)
+
+Definition step_client (s : cstep) : option nat :=
+  match s with
+  | SConnect c _ _ | SClose c | SSubscribe c _ _ | SUnsubscribe c _ _ | SPublish c _ _ _ _
+  | SPubrel c _ | SPuback c _ | SPubrec c _ | SPubcomp c _ => Some c
+  | SSkipped => None
+  end.
+
+(* journal position at which the broker wrote the first packet of client c satisfying f *)
+Fixpoint rx_pos (c : nat) (f : rxpkt -> bool) (rx : list (nat * nat * rxpkt)) : option nat :=
+  match rx with
+  | [] => None
+  | (c', pos, p) :: r => if (c' =? c)%nat && f p then Some pos else rx_pos c f r
+  end.
+Definition acked_by (k : nat) (o : option nat) : bool := match o with Some p => (p <=? k)%nat | None => false end.
+
+Definition is_connack (p : rxpkt) : bool := match p with XConnack _ code => code =? 0 | _ => false end.
+Definition connack_sp (c : nat) (rx : list (nat * nat * rxpkt)) : bool :=
+  existsb (fun e => let '(c', _, p) := e in (c' =? c)%nat && match p with XConnack sp _ => sp | _ => false end) rx.
+Definition is_suback (pid : N) (p : rxpkt) : bool := match p with XSuback q _ => q =? pid | _ => false end.
+Definition is_unsuback (pid : N) (p : rxpkt) : bool := match p with XUnsuback q => q =? pid | _ => false end.
+Definition is_pubank (pid : N) (p : rxpkt) : bool :=
+  match p with XPuback q _ => q =? pid | XPubrec q _ => q =? pid | _ => false end.
+Fixpoint suback_codes (c : nat) (pid : N) (rx : list (nat * nat * rxpkt)) : list N :=
+  match rx with
+  | [] => []
+  | (c', _, XSuback q codes) :: r => if (c' =? c)%nat && (q =? pid) then codes else suback_codes c pid r
+  | _ :: r => suback_codes c pid r
+  end.
+
+(* per client view of the history up to the crash.
+   sv_live: a session whose creation (or resumption) was acknowledged exists;
+   sv_subs: acknowledged subscriptions; sv_pend: (topic, value) a request in flight may have produced;
+   sv_unsub: topics whose UNSUBACK was written (and not subscribed again since);
+   sv_ids: packet id -> payload of the PUBLISH packets the client received on its current connection *)
+Record sview := {
+  sv_live : bool; sv_expiry : N; sv_online : bool;
+  sv_subs : list (str * sub); sv_pend : list (str * option sub); sv_unsub : list str;
+  sv_ids : list (N * str);
+  sv_acked : list str;        (* payloads whose delivery the client has started to acknowledge for good (PUBACK / PUBCOMP sent) *)
+  sv_rec : list (N * str);    (* QoS 2 deliveries for which the client sent PUBREC: (pid, payload) *)
+  sv_uncertain : bool;        (* a CONNECT / close of this client is in flight: nothing is required *)
+  sv_epoch : nat }.           (* number of session creations and terminations so far *)
+
+Definition sv0 : sview :=
+  {| sv_live := false; sv_expiry := 0; sv_online := false; sv_subs := []; sv_pend := []; sv_unsub := []; sv_ids := [];
+     sv_acked := []; sv_rec := []; sv_uncertain := false; sv_epoch := 0 |}.
+
+Fixpoint zip_granted (subs : list sub) (codes : list N) : list sub :=
+  match subs, codes with
+  | s :: r, c :: cr => if c <? 128 then s :: zip_granted r cr else zip_granted r cr
+  | _, _ => []
+  end.
+
+Fixpoint sdel (t : str) (l : list str) : list str :=
+  match l with [] => [] | x :: r => if str_eqb x t then sdel t r else x :: sdel t r end.
+Fixpoint smem (t : str) (l : list str) : bool :=
+  match l with [] => false | x :: r => str_eqb x t || smem t r end.
+
+Definition lookupN (p : N) (l : list (N * str)) : option str :=
+  match find (fun e => fst e =? p) l with Some e => Some (snd e) | None => None end.
+
+(* effect of one observed step on the view of client c, for a crash after k commands *)
+Definition sview_step (k : nat) (c : nat) (v : sview) (o : ostep) : sview :=
+  if negb (os_start o <? k)%nat then v else          (* not started before the crash *)
+  let rx := os_rx o in
+  (* packets the broker wrote to c during the step (before the crash): PUBLISH ids *)
+  let ids := fold_left (fun acc e => let '(c', pos, p) := e in
+                          if (c' =? c)%nat && (pos <=? k)%nat
+                          then match p with XPublish _ q _ payload pid => if 0 <? q then (pid, payload) :: acc else acc | _ => acc end
+                          else acc) rx (sv_ids v) in
+  let v := {| sv_live := sv_live v; sv_expiry := sv_expiry v; sv_online := sv_online v; sv_subs := sv_subs v; sv_pend := sv_pend v;
+              sv_unsub := sv_unsub v; sv_ids := ids; sv_acked := sv_acked v; sv_rec := sv_rec v; sv_uncertain := sv_uncertain v;
+              sv_epoch := sv_epoch v |} in
+  let upd live exp online subs pend unsub ids' acked rec unc :=
+    {| sv_live := live; sv_expiry := exp; sv_online := online; sv_subs := subs; sv_pend := pend; sv_unsub := unsub;
+       sv_ids := ids'; sv_acked := acked; sv_rec := rec; sv_uncertain := unc; sv_epoch := sv_epoch v |} in
+  let bump (x : sview) : sview :=
+    {| sv_live := sv_live x; sv_expiry := sv_expiry x; sv_online := sv_online x; sv_subs := sv_subs x; sv_pend := sv_pend x;
+       sv_unsub := sv_unsub x; sv_ids := sv_ids x; sv_acked := sv_acked x; sv_rec := sv_rec x; sv_uncertain := sv_uncertain x;
+       sv_epoch := S (sv_epoch x) |} in
+  match os_step o with
+  | SConnect c' clean expiry =>
+      if negb (c' =? c)%nat then v else
+      if acked_by k (rx_pos c is_connack rx) then
+        if connack_sp c rx
+        then upd true expiry true (sv_subs v) [] (sv_unsub v) (fold_left (fun acc e => let '(c', pos, p) := e in
+                          if (c' =? c)%nat && (pos <=? k)%nat
+                          then match p with XPublish _ q _ payload pid => if 0 <? q then (pid, payload) :: acc else acc | _ => acc end
+                          else acc) rx []) (sv_acked v) (sv_rec v) false
+        else bump (upd true expiry true [] [] [] [] [] [] false)
+      else bump (upd false 0 false [] [] [] [] [] [] true)
+  | SClose c' =>
+      if negb (c' =? c)%nat then v else
+      if (os_done o <=? k)%nat then
+        if sv_expiry v =? 0 then bump (upd false 0 false [] [] [] [] [] [] false)
+        else upd (sv_live v) (sv_expiry v) false (sv_subs v) (sv_pend v) (sv_unsub v) [] (sv_acked v) (sv_rec v) false
+      else if sv_expiry v =? 0 then bump (upd false 0 false [] [] [] [] [] [] true)
+           else upd (sv_live v) (sv_expiry v) false (sv_subs v) (sv_pend v) (sv_unsub v) [] (sv_acked v) (sv_rec v) false
+  | SSubscribe c' pid subs =>
+      if negb (c' =? c)%nat then v else
+      if acked_by k (rx_pos c (is_suback pid) rx) then
+        let g := zip_granted subs (suback_codes c pid rx) in
+        upd (sv_live v) (sv_expiry v) (sv_online v)
+            (fold_left (fun m s => aset (full_topic s) s m) g (sv_subs v)) []
+            (fold_left (fun u s => sdel (full_topic s) u) g (sv_unsub v)) (sv_ids v) (sv_acked v) (sv_rec v) (sv_uncertain v)
+      else upd (sv_live v) (sv_expiry v) (sv_online v) (sv_subs v)
+               (map (fun s => (full_topic s, Some s)) subs ++ sv_pend v) (sv_unsub v) (sv_ids v) (sv_acked v) (sv_rec v) (sv_uncertain v)
+  | SUnsubscribe c' pid ts =>
+      if negb (c' =? c)%nat then v else
+      if acked_by k (rx_pos c (is_unsuback pid) rx) then
+        upd (sv_live v) (sv_expiry v) (sv_online v) (fold_left (fun m t => adel t m) ts (sv_subs v)) []
+            (ts ++ sv_unsub v) (sv_ids v) (sv_acked v) (sv_rec v) (sv_uncertain v)
+      else upd (sv_live v) (sv_expiry v) (sv_online v) (sv_subs v) (map (fun t => (t, None)) ts ++ sv_pend v)
+               (sv_unsub v) (sv_ids v) (sv_acked v) (sv_rec v) (sv_uncertain v)
+  | SPuback c' pid | SPubcomp c' pid =>
+      if negb (c' =? c)%nat then v else
+      match lookupN pid (sv_ids v), lookupN pid (sv_rec v) with
+      | Some payload, _ | None, Some payload =>
+          upd (sv_live v) (sv_expiry v) (sv_online v) (sv_subs v) (sv_pend v) (sv_unsub v) (sv_ids v)
+              (payload :: sv_acked v) (sv_rec v) (sv_uncertain v)
+      | None, None => v
+      end
+  | SPubrec c' pid =>
+      if negb (c' =? c)%nat then v else
+      match lookupN pid (sv_ids v) with
+      | Some payload => upd (sv_live v) (sv_expiry v) (sv_online v) (sv_subs v) (sv_pend v) (sv_unsub v) (sv_ids v)
+                            (sv_acked v) ((pid, payload) :: sv_rec v) (sv_uncertain v)
+      | None => v
+      end
+  | _ => v
+  end.
+
+Definition sview_at (k : nat) (c : nat) (steps : list ostep) : sview := fold_left (sview_step k c) steps sv0.
+
+(* the subscriptions client c had when step number n was handled (all earlier steps complete) *)
+Definition sview_before (n : nat) (c : nat) (steps : list ostep) : sview :=
+  fold_left (fun v o => sview_step (S (os_done o)) c v o) (firstn n steps) sv0.
+
+Definition granted_qos (topic : str) (publisher_is_c : bool) (qos : N) (subs : list (str * sub)) : N :=
+  let ms := filter (fun e => let s := snd e in
+                      is_empty (s_share s) && topic_match topic (s_filter s) && negb (s_nl s && publisher_is_c)) subs in
+  match ms with
+  | [] => 0
+  | _ => N.min qos (fold_left N.max (map (fun e => s_qos (snd e)) ms) 0)
+  end.
+
+Definition rx_has_payload (payload : str) (rx : list rxpkt) : bool :=
+  existsb (fun p => match p with XPublish _ _ _ pl _ => str_eqb pl payload | _ => false end) rx.
+Definition rx_has_pubrel (pid : N) (rx : list rxpkt) : bool :=
+  existsb (fun p => match p with XPubrel q => q =? pid | _ => false end) rx.
+
+Definition sub_eq (a b : sub) : bool := Redis.sub_eqb a b.
+
+Fixpoint index_steps (i : nat) (l : list ostep) : list (nat * ostep) :=
+  match l with [] => [] | o :: r => (i, o) :: index_steps (S i) r end.
+
+Definition crash_prefix_fails (names : list cid) (steps : list ostep) (p : pobs) : list cfail :=
+  let k := po_k p in
+  if negb (po_up p) then [FStartup] else
+  let nclients := length names in
+  let per_client (c : nat) : list cfail :=
+    let name := nth c names [] in
+    let v := sview_at k c steps in
+    let ob := nth c (po_clients p) {| co_sp := None; co_rx := []; co_resend := [] |} in
+    let dups := flat_map (fun r => let '(pid, pushes, acked) := r in
+                                   if acked && (pushes =? 0)%nat then [] else [FDupNotRecognised c pid]) (co_resend ob) in
+    if sv_uncertain v || negb (sv_live v) || (sv_expiry v =? 0) then dups else
+    let sess := if smem name (po_sessions p) && (match co_sp ob with Some true => true | _ => false end) then [] else [FSession c] in
+    let mine := map (fun e => (full_topic (snd e), snd e)) (filter (fun e => str_eqb (fst e) name) (po_subs p)) in
+    let allowed (t : str) (x : option sub) : bool :=
+      (match aget t (sv_subs v), x with
+       | Some a, Some b => sub_eq a b
+       | None, None => true
+       | _, _ => false
+       end) ||
+      existsb (fun e => str_eqb (fst e) t && match snd e, x with
+                                            | Some a, Some b => sub_eq a b
+                                            | None, None => true
+                                            | _, _ => false
+                                            end) (sv_pend v) in
+    let extra := flat_map (fun e => if allowed (fst e) (Some (snd e)) then [] else [FSubExtra c (fst e) (smem (fst e) (sv_unsub v))]) mine in
+    let missing := flat_map (fun e => match aget (fst e) mine with
+                                      | Some _ => []          (* a wrong value is reported by `extra` *)
+                                      | None => if allowed (fst e) None then [] else [FSubMissing c (fst e)]
+                                      end) (sv_subs v) in
+    let msgs := flat_map (fun io =>
+        let '(n, o) := io in
+        match os_step o with
+        | SPublish pc qos pid topic payload =>
+            if (0 <? qos) && acked_by k (rx_pos pc (is_pubank pid) (os_rx o)) then
+              let vb := sview_before n c steps in
+              if sv_live vb && ((sv_online vb) || negb (sv_expiry vb =? 0)) &&
+                 (0 <? granted_qos topic (pc =? c)%nat qos (sv_subs vb)) &&
+                 (sv_epoch vb =? sv_epoch v)%nat &&
+                 negb (smem payload (sv_acked v))
+              then
+                if rx_has_payload payload (co_rx ob) ||
+                   existsb (fun e => str_eqb (snd e) payload && rx_has_pubrel (fst e) (co_rx ob)) (sv_rec v)
+                then [] else [FMsgLost c payload]
+              else []
+            else []
+        | _ => []
+        end) (index_steps 0 steps) in
+    sess ++ extra ++ missing ++ msgs ++ dups in
+  let foreign := flat_map (fun e => if smem (fst e) names then [] else [FSubForeign (fst e)]) (po_subs p) in
+  flat_map per_client (seq 0 nclients) ++ foreign.
+
+(* which known defect explains a failed clause *)
+Inductive crashkf := KFNone | KFHdel | KFTrim | KFUnack.
+
+Definition explain (fx : fixes) (names : list cid) (f : cfail) : crashkf :=
+  let trimmed c := negb (str_eqb (trim_left (nth c names [])) (nth c names [])) in
+  match f with
+  | FSubExtra c _ true => if negb (fix_hdel fx) then KFHdel else KFNone
+  | FSubMissing c _ => if negb (fix_trim fx) && trimmed c then KFTrim else KFNone
+  | FSubForeign id => if negb (fix_trim fx) && existsb (fun n => str_eqb (trim_left n) id && negb (str_eqb n id)) names then KFTrim else KFNone
+  | FDupNotRecognised _ _ => if negb (fix_unack fx) then KFUnack else KFNone
+  | _ => KFNone
+  end.
+
+(* ---------- the model's side of the broker level check ---------- *)
+Definition new_pids (c : nat) (rx : list (nat * nat * rxpkt)) : list N :=
+  flat_map (fun e => let '(c', _, p) := e in
+              match p with XPublish false q _ _ pid => if (c' =? c)%nat && (0 <? q) then [pid] else [] | _ => [] end) rx.
+Definition got_new (c : nat) (rx : list (nat * nat * rxpkt)) : bool :=
+  existsb (fun e => let '(c', _, p) := e in match p with XPublish false _ _ _ _ => (c' =? c)%nat | _ => false end) rx.
+
+Definition polls_of (names : list cid) (skip : option nat) (rx : list (nat * nat * rxpkt)) : list bevent :=
+  flat_map (fun c => if (match skip with Some s => (s =? c)%nat | None => false end) then []
+                     else if got_new c rx then [EPoll (nth c names []) (new_pids c rx)] else []) (seq 0 (length names)).
+
+Fixpoint set_nth {A} (i : nat) (x : A) (l : list A) : list A :=
+  match i, l with
+  | _, [] => []
+  | O, _ :: r => x :: r
+  | S k, y :: r => y :: set_nth k x r
+  end.
+
+(* the client steps as broker events: a CONNECT on a label that is still connected closes the
+   old connection first; deliveries seen by other clients during a step are polls *)
+Fixpoint events_of (names : list cid) (online : list bool) (steps : list ostep) : list bevent :=
+  match steps with
+  | [] => []
+  | o :: r =>
+      let nm c := nth c names [] in
+      let rx := os_rx o in
+      match os_step o with
+      | SConnect c clean expiry =>
+          (if nth c online false then [EClose (nm c)] else []) ++
+          [EConnect (nm c) clean expiry (new_pids c rx)] ++ polls_of names (Some c) rx ++ events_of names (set_nth c true online) r
+      | SClose c => [EClose (nm c)] ++ polls_of names None rx ++ events_of names (set_nth c false online) r
+      | SSubscribe c pid subs => [ESubscribe (nm c) pid subs] ++ polls_of names None rx ++ events_of names online r
+      | SUnsubscribe c pid ts => [EUnsubscribe (nm c) pid ts] ++ polls_of names None rx ++ events_of names online r
+      | SPublish c qos pid t pl => [EPublish (nm c) qos pid t pl] ++ polls_of names None rx ++ events_of names online r
+      | SPubrel c pid => [EPubrel (nm c) pid] ++ polls_of names None rx ++ events_of names online r
+      | SPuback c pid => [EPuback (nm c) pid] ++ polls_of names None rx ++ events_of names online r
+      | SPubrec c pid => [EPubrec (nm c) pid] ++ polls_of names None rx ++ events_of names online r
+      | SPubcomp c pid => [EPubcomp (nm c) pid] ++ polls_of names None rx ++ events_of names online r
+      | SSkipped => polls_of names None rx ++ events_of names online r
+      end
+  end.
+
+Definition model_journal (fx : fixes) (names : list cid) (steps : list ostep) : list jentry :=
+  journal fx (events_of names (map (fun _ => false) names) steps).
+
+Definition rx_of_journal (c : cid) (j : list jentry) : list rxpkt :=
+  flat_map (fun e => match e with
+                     | JOut (ODeliver c' dup q pl pid) => if str_eqb c c' then [XPublish dup q [] pl pid] else []
+                     | JOut (OPubrel c' pid) => if str_eqb c c' then [XPubrel pid] else []
+                     | _ => []
+                     end) j.
+
+Definition count_rpush (j : list jentry) : nat :=
+  length (filter (fun e => match e with JCmd (CRPush _ _) => true | _ => false end) j).
+
+(* what the model predicts a fresh broker shows on a store: sessions, subscriptions, and for
+   each client (in order) the reconnection with Clean Start 0: session present, deliveries,
+   and for each re-sent QoS 2 PUBLISH (pid, topic, payload) the number of queue appends *)
+Fixpoint post_recover (fx : fixes) (b : broker) (names : list cid) (posts : list (list N * list (N * str * str)))
+  : list (option bool * list rxpkt * list (N * nat * bool)) :=
+  match names, posts with
+  | c :: nr, (pids, resends) :: pr =>
+      let '(b1, j1) := bstep fx b (EConnect c false 3600 pids) in
+      let sp := fold_left (fun acc e => match e with JOut (OConnack _ s) => Some s | _ => acc end) j1 None in
+      let '(b2, res) := fold_left (fun acc r =>
+                          let '(bb, out) := acc in
+                          let '(pid, topic, payload) := r in
+                          let '(bb', j) := bstep fx bb (EPublish c 2 pid topic payload) in
+                          (bb', out ++ [(pid, count_rpush j,
+                                         existsb (fun e => match e with JOut (OPubrec _ p) => p =? pid | _ => false end) j)]))
+                        resends (b1, []) in
+      let '(b3, _) := bstep fx b2 (EClose c) in
+      (sp, rx_of_journal c j1, res) :: post_recover fx b3 nr pr
+  | _, _ => []
+  end.
+
+Definition model_prefix (fx : fixes) (names : list cid) (cmds : list rcmd) (posts : list (list N * list (N * str * str)))
+  : option (list cid * list (cid * sub) * list (option bool * list rxpkt * list (N * nat * bool))) :=
+  match recover fx (exec_all [] cmds) with
+  | None => None
+  | Some b => Some (map fst (b_clients b),
+                    map (fun e => (fst (fst (fst e)), snd e)) (b_subs b),
+                    post_recover fx b names posts)
+  end.
